@@ -12,9 +12,11 @@ random values.  A disagreement goes to `res.diffs` with input 'gen <name> …' (
 the check then reports a VIOLATION ... no-failing-input-found unless the property's own oracle
 finds a failing input).
 
-Line protocol: Nat/Int decimal, Bool 0/1, Option `N`, Rat n/d, Bytes x<hex>; results: tuples
-comma-separated, Bool True/False, Unit None, `ok:<v>` / `raise:<Class>:<text>` for definitions
-that can raise (a `{}` of a `.format` template matches anything).
+Line protocol: Nat/Int decimal, Bool 0/1, Option `N`, Rat n/d, Bytes x<hex>, str u<code points,
+dotted>, dict d<key>=<value>;.., an external function (int(), a codec) as the table of the values
+it takes where the real code applies it f<argument>:<value>;..; results: tuples comma-separated,
+Bool True/False, Unit None, `ok:<v>` / `raise:<Class>:<text>` for definitions that can raise (a
+`{..}` of a `.format` template matches anything).
 """
 from __future__ import annotations
 import random, re, types
@@ -22,14 +24,20 @@ from fractions import Fraction
 import runner
 
 GROUPS = {
+    'C01': ['messageBuildInflate', 'messageBuildKind'],
+    'C05': ['frameIsText', 'frameIsContinuation', 'parseReadText', 'parseReader', 'parserOnFrame', 'clientOnFrameGuard'],
+    'C06': ['deflateWbitsCheck', 'deflateCompressorWbits', 'deflateGetWbits', 'deflateFromOptions'],
+    'C08': ['sessionCheckWritable', 'sessionWrite', 'sessionSendClosing', 'wsOnDisconnect', 'wsOnClose', 'closeFromPayload'],
+    'C12': ['sessionCheckWritable', 'sessionWrite', 'wsOnDisconnect', 'wsOnClose'],
     'C03': ['frameBuildMaskBit', 'frameBuildByte0', 'frameBuildHeader', 'frameBuildClosePayload',
             'wsSendPingGuard', 'wsSendPongGuard', 'wsClose'],
     'C04': ['frameIsControl', 'opcodeIsReserved', 'frameValidateReservedBits', 'compressedFrameValidateReservedBits',
             'frameValidate', 'compressedFrameValidate', 'parseFields', 'parseLenExt', 'parseTooLarge',
-            'parseChecksFrame', 'parseChecksCompressed'],
+            'parseChecksFrame', 'parseChecksCompressed', 'clientOnFrameGuard'],
     'C15': ['sessionCheckPoll', 'sessionCheckAutoPing', 'sessionCheckPingTimeout', 'sessionCheckCloseTimeout'],
     'C16': ['persistRetriesInit', 'persistRetriesNext', 'persistAfterEvent', 'persistWaitFor'],
-    'C10': ['wsDefaultPort', 'deflateWbitsCheck', 'deflateCompressorWbits'],
+    'C10': ['wsDefaultPort', 'deflateWbitsCheck', 'deflateCompressorWbits', 'deflateGetWbits', 'deflateFromOptions',
+            'responseGetStr', 'responseGetOpt', 'wsOnResponse', 'readUntilCheckLength', 'feedReadUntil'],
     'C19': ['proxyDefaultPort', 'wsDefaultPort'],
 }
 
@@ -40,6 +48,12 @@ LEN_EDGES = [0, 1, 2, 123, 124, 125, 126, 127, 128, 129, 130, 255, 256, 65534, 6
 # ---------------------------------------------------------------------------------------------
 # canonical printing (must agree with Py.Render in lean/Lomond/Model/PyOps.lean)
 
+class Opt(object):
+    """a value of an Option type (None prints as N, not as the Unit value None)"""
+    def __init__(self, v):
+        self.v = v
+
+
 def show(v):
     if v is None:
         return 'None'
@@ -47,6 +61,10 @@ def show(v):
         return 'True' if v else 'False'
     if isinstance(v, (bytes, bytearray)):
         return 'x' + bytes(v).hex()
+    if isinstance(v, str):
+        return ('x' + ''.join('%02x' % ord(c) for c in v)) if all(ord(c) < 256 for c in v) else 'u' + dotted(v)
+    if isinstance(v, Opt):
+        return 'N' if v.v is None else show(v.v)
     if isinstance(v, tuple):
         return ','.join(show(x) for x in v)
     if isinstance(v, Fraction):
@@ -56,9 +74,23 @@ def show(v):
     return str(v)
 
 
+class Fn(dict):
+    """an external function as the finite table of its values (argument -> value)"""
+
+
+def dotted(x):
+    return '.'.join(str(c) for c in (x if isinstance(x, (bytes, bytearray)) else [ord(c) for c in x]))
+
+
 def arg(v):
     if v is None:
         return 'N'
+    if isinstance(v, Fn):
+        return 'f' + ';'.join('%s:%s' % (dotted(k), arg(x)) for k, x in v.items())
+    if isinstance(v, dict):
+        return 'd' + ';'.join('%s=%s' % (dotted(k), dotted(x)) for k, x in v.items())
+    if isinstance(v, str):
+        return 'u' + dotted(v)
     if isinstance(v, bool):
         return '1' if v else '0'
     if isinstance(v, (bytes, bytearray)):
@@ -79,8 +111,8 @@ def attempt(fn):
 def same(py, lean):
     if py == lean:
         return True
-    if lean.startswith('raise:') and '{}' in lean:
-        pat = '.*'.join(re.escape(p) for p in lean.split('{}'))
+    if lean.startswith('raise:') and re.search(r'\{[^{}]*\}', lean):
+        pat = '.*'.join(re.escape(p) for p in re.split(r'\{[^{}]*\}', lean))
         return re.fullmatch(pat, py, re.S) is not None
     return False
 
@@ -337,6 +369,287 @@ def py_deflateCompressorWbits(w):
     return seen[0][2]
 
 
+# ---- frame_parser.py: text state, payload reader, on_frame ---------------------------------------
+
+def py_frameIsText(opcode):
+    from lomond.frame import Frame
+    return Frame(opcode).is_text
+
+
+def py_frameIsContinuation(opcode):
+    from lomond.frame import Frame
+    return Frame(opcode).is_continuation
+
+
+def reader_code(awaitable):
+    from lomond.parser import _ReadUtf8, _ReadBytes
+    return 2 if isinstance(awaitable, _ReadUtf8) else 1 if isinstance(awaitable, _ReadBytes) else 99
+
+
+def py_parseReadText(compression, is_compressed):
+    from lomond.frame_parser import FrameParser
+    p = FrameParser(parse_headers=False)
+    p._compression, p._is_compressed = compression, is_compressed
+    return reader_code(p.read_text(5))
+
+
+def py_parseReader(opcode, rsv1, length, is_text, is_compressed, compression):
+    """the real parser fed a header (no validation): which awaitable it asks for the payload with,
+    and its text state at that point (for an empty payload: when on_frame is entered)"""
+    from lomond.frame_parser import FrameParser
+    class Probe(FrameParser):
+        def on_frame(self, frame):
+            self.seen = (self._is_text, self._is_compressed)
+    p = Probe(parse_headers=False, validate=False)
+    if compression:
+        p.enable_compression()
+    p._is_text, p._is_compressed = is_text, is_compressed
+    frames = list(p.feed(header_bytes(1, rsv1, 0, 0, opcode, 0, length)))
+    if frames:
+        return (0,) + p.seen
+    if p._awaiting.remaining != length:
+        raise AssertionError('parser does not wait for the payload')
+    return (reader_code(p._awaiting), p._is_text, p._is_compressed)
+
+
+def py_parserOnFrame(compression, is_compressed, is_text, fin, opcode):
+    from lomond.frame_parser import FrameParser
+    from lomond.frame import Frame
+    p = FrameParser(parse_headers=False)
+    p._compression, p._is_compressed, p._is_text = compression, is_compressed, is_text
+    resets = []
+    p._utf8_validator = types.SimpleNamespace(reset=lambda: resets.append(1))
+    FrameParser.on_frame(p, Frame(opcode, fin=fin, mask=False))
+    return (bool(resets), p._is_text)
+
+
+def py_clientOnFrameGuard(mask):
+    from lomond.frame_parser import ClientFrameParser
+    from lomond.frame import Frame
+    import logging
+    p = ClientFrameParser(parse_headers=False)
+    logging.disable(logging.CRITICAL)            # the site logs a warning before it raises
+    try:
+        return attempt(lambda: p.on_frame(Frame(2, fin=1, mask=mask, masking_key=b'\1\2\3\4' if mask else None)))
+    finally:
+        logging.disable(logging.NOTSET)
+
+
+# ---- session.py / websocket.py: the state flags -----------------------------------------------------
+
+class RecState(object):
+    """a WebSocket.State whose `closed` / `closing` accesses are recorded: read 1 / 2, write 11 / 12"""
+    def __init__(self, log, **values):
+        object.__setattr__(self, '_log', log)
+        object.__setattr__(self, '_v', dict(dict(session=None, sent_close_time=None, compression=None), **values))
+
+    def __getattr__(self, k):
+        if k in ('closed', 'closing'):
+            self._log.append(1 if k == 'closed' else 2)
+        return self._v[k]
+
+    def __setattr__(self, k, v):
+        if k in ('closed', 'closing'):
+            self._log.append(11 if k == 'closed' else 12)
+        self._v[k] = v
+
+
+def real_ws():
+    from lomond.websocket import WebSocket
+    return WebSocket('ws://example.org/')
+
+
+def real_session(ws, no_sock, sent):
+    from lomond.session import WebsocketSession
+    s = WebsocketSession(ws)
+    s._sock = None if no_sock else types.SimpleNamespace(sendall=lambda data: sent.append(bytes(data)))
+    return s
+
+
+def py_sessionCheckWritable(no_sock, closed, closing):
+    ws, log = real_ws(), []
+    ws.state = RecState(log, closed=closed, closing=closing)
+    s = real_session(ws, no_sock, [])
+    def go():
+        s._check_writable()
+        return bytes(log)
+    return attempt(go)
+
+
+def py_sessionWrite(no_sock, closed, is_closing, closing):
+    ws, sent = real_ws(), []
+    ws.state.closed, ws.state.closing = closed, is_closing
+    s = real_session(ws, no_sock, sent)
+    def go():
+        if closing:
+            s.write(b'x', closing=True)
+        else:
+            s.write(b'x')
+        return (bool(sent), ws.state.closing)
+    return attempt(go)
+
+
+def py_sessionSendClosing(opcode):
+    ws, seen = real_ws(), []
+    s = real_session(ws, False, [])
+    s.write = lambda data, closing=False: seen.append(closing)
+    s.send(opcode, b'')
+    return seen[0]
+
+
+def py_wsOnDisconnect(has_session, closed, closing, explicit=False):
+    ws, log, closes = real_ws(), [], []
+    st = RecState(log, closed=closed, closing=closing,
+                  session=types.SimpleNamespace(close=lambda: closes.append(1)) if has_session else None)
+    if explicit:
+        ws.on_disconnect(st)
+    else:
+        ws.state = st
+        ws.on_disconnect()
+    return (bool(closes), st._v['closed'], st._v['closing'], bytes(log))
+
+
+def py_wsOnClose(code, closed, closing):
+    ws, log, echo = real_ws(), [], []
+    st = RecState(log, closed=closed, closing=closing)
+    ws.state = st
+    ws.close = lambda code=None, reason=None: echo.append((code, reason))
+    def go():
+        names = [type(e).__name__ for e in ws._on_close(types.SimpleNamespace(code=code, reason='why'))]
+        event = {(): 0, ('Closed',): 1, ('Closing',): 2}[tuple(names)]
+        if echo and echo != [(code, 'why')]:
+            raise AssertionError('close() called with other arguments')
+        return (event, bool(echo), st._v['closed'], st._v['closing'], bytes(log))
+    return attempt(go)
+
+
+# ---- the upgrade reply ---------------------------------------------------------------------------------
+
+def fake_response(status_code, headers):
+    from lomond.response import Response
+    r = Response(b'HTTP/1.1 101 Switching Protocols\r\n\r\n')
+    r.status_code, r.headers = status_code, dict(headers)
+    return r
+
+
+def py_responseGetStr(headers, name, default):
+    return show(fake_response(101, headers).get(name, default))
+
+
+def py_responseGetOpt(headers, name, default, omit=False):
+    r = fake_response(101, headers)
+    return Opt(r.get(name) if omit else r.get(name, default))
+
+
+def py_wsOnResponse(status_code, headers, challenge):
+    import lomond.websocket as W
+    ws = real_ws()
+    ws.process_extensions = lambda extensions: set()
+    real = W.b64encode
+    W.b64encode = lambda data: challenge.encode('ascii')
+    try:
+        return attempt(lambda: Opt(ws.on_response(fake_response(status_code, headers))[0]))
+    finally:
+        W.b64encode = real
+
+
+def py_int(s):
+    try:
+        return int(s)
+    except ValueError:
+        return None
+
+
+def py_deflateGetWbits(options, key, int_):
+    from lomond.compression import Deflate
+    return attempt(lambda: Deflate.get_wbits(dict(options), key))
+
+
+def py_deflateFromOptions(options, int_):
+    from lomond.compression import Deflate
+    def go():
+        d = Deflate.from_options(dict(options))
+        return (d.decompress_wbits, d.compress_wbits, d.reset_decompress, d.reset_compress)
+    return attempt(go)
+
+
+# ---- message.py ----------------------------------------------------------------------------------------
+
+def py_messageBuildInflate(rsv1, decompress):
+    from lomond.message import Message
+    from lomond.frame import Frame
+    calls = []
+    def inflater(frames):
+        calls.append(1)
+        return b'zz'
+    Message.build([Frame(2, payload=b'ab', rsv1=rsv1)], decompress=inflater if decompress else None)
+    return bool(calls)
+
+
+def py_messageBuildKind(opcode):
+    from lomond.message import Message
+    from lomond.frame import Frame
+    m = Message.build([Frame(opcode, payload=b'')])
+    return {'Message': 0, 'Binary': 1, 'Text': 2, 'Close': 3, 'Ping': 4, 'Pong': 5}[type(m).__name__]
+
+
+def py_closeFromPayload(payload, utf8_valid, decode):
+    from lomond.message import Close
+    def go():
+        m = Close.from_payload(bytes(payload))
+        return (Opt(m.code), m.reason)
+    return attempt(go)
+
+
+def utf8_tables(payload):
+    """the two external functions of Close.from_payload at the argument they are applied to"""
+    from lomond.utf8validator import Utf8Validator
+    rest = bytes(payload[2:])
+    try:
+        dec = rest.decode('utf-8')
+    except UnicodeDecodeError:
+        dec = None
+    return Fn({rest: bool(Utf8Validator().validate(rest)[0])}), Fn({rest: dec})
+
+
+# ---- parser.py -----------------------------------------------------------------------------------------
+
+def py_readUntilCheckLength(max_bytes, pos):
+    from lomond.parser import _ReadUntil
+    return attempt(lambda: _ReadUntil(b'\r\n\r\n', max_bytes=max_bytes).check_length(pos))
+
+
+SEPS = {1: b'\n', 2: b'\r\n', 4: b'\r\n\r\n'}
+
+
+def py_feedReadUntil(max_bytes, sep_index, sep_len, buffer_len, first=0):
+    """the real Parser.feed awaiting read_until(sep, max_bytes) with a buffer of buffer_len bytes
+    (the first `first` of them fed by an earlier call) in which sep starts at sep_index (-1: absent);
+    observed: the length of what the parser is sent"""
+    from lomond.parser import Parser
+    sep = SEPS[sep_len]
+    class P(Parser):
+        def parse(self):
+            data = yield self.read_until(sep, max_bytes=max_bytes)
+            yield data
+            while True:
+                yield self.read(1)
+    if sep_index < 0:
+        data = b'a' * buffer_len
+    else:
+        data = b'a' * sep_index + sep + b'b' * (buffer_len - sep_index - sep_len)
+    if len(data) != buffer_len or first >= len(data):
+        raise AssertionError('inconsistent case')
+    p = P()
+    def go():
+        out = list(p.feed(data[:first])) if first else []
+        if out:
+            raise AssertionError('separator in the first part')
+        out = list(p.feed(data[first:]))
+        return len(out[0]) if out else -1
+    return attempt(go)
+
+
 def persist_delays(script, min_wait, max_wait, u):
     """run the real persist() over scripted connections; script = list of rounds, each a list of
     booleans (event is named 'ready' or not).  Returns the BackOff delays as Fractions."""
@@ -476,7 +789,149 @@ def cases_for(name, rng, quick):
         return [(w,) for w in range(-20, 40)] + [(1 << 40,), (-(1 << 40),)]
     if name == 'deflateCompressorWbits':
         return [(w,) for w in range(0, 20)]
+    if name in ('frameIsText', 'frameIsContinuation'):
+        return [(o,) for o in range(0, 20)]
+    B = (False, True)
+    if name == 'parseReadText':
+        return [(a, b) for a in B for b in B]
+    if name == 'parseReader':
+        return [(op, r1, n, t, z, c) for op in range(16) for r1 in (0, 1) for n in (0, 1, 5, 125, 126, 70000)
+                for t in B for z in B for c in B]
+    if name == 'parserOnFrame':
+        return [(c, z, t, fin, op) for c in B for z in B for t in B for fin in (0, 1) for op in range(16)]
+    if name == 'clientOnFrameGuard':
+        return [(False,), (True,)]
+    if name == 'sessionCheckWritable':
+        return [(a, b, c) for a in B for b in B for c in B]
+    if name == 'sessionWrite':
+        return [(a, b, c, d) for a in B for b in B for c in B for d in B]
+    if name == 'sessionSendClosing':
+        return [(o,) for o in range(16)]
+    if name == 'wsOnDisconnect':
+        return [(a, b, c) for a in B for b in B for c in B]
+    if name == 'wsOnClose':
+        codes = [None, 0, 1, 999, 1000, 1001, 1002, 1003, 1004, 1005, 1006, 1007, 1011, 1013, 1014, 1015, 1016, 2999, 3000,
+                 4000, 4999, 5000, 65535] + [rng.randrange(0, 65536) for _ in range(40 * k)]
+        return [(c, a, b) for c in codes for a in B for b in B]
+    if name in ('responseGetStr', 'responseGetOpt'):
+        out = []
+        for _ in range(60 * k):
+            hs = rand_headers(rng)
+            nm = rng.choice(list(hs) + [h.upper() for h in hs] + [h.title() for h in hs] + ['missing', 'Upgrade', '']) if hs else 'upgrade'
+            dflt = rng.choice(['', '<header missing>', 'x\ufffdy'])
+            out.append((hs, nm, dflt) if name == 'responseGetStr' else (hs, nm, rng.choice([None, dflt])))
+        return out
+    if name == 'wsOnResponse':
+        out = []
+        good = 's3pPLMBiTxaQ9kYGzzhZRbK+xOo='
+        def reply(rng):
+            hs = rand_headers(rng)
+            up = rng.choice(['websocket', 'WebSocket', 'WEBSOCKET', 'websocket ', 'websockets', 'h2c', '', 'web\ufffdsocket', None])
+            if up is not None:
+                hs['upgrade'] = up
+            acc = rng.choice([good, good.lower(), good.upper(), good[:-1], good + ' ', '', 'x' + good[1:], None,
+                              ''.join(c.swapcase() if rng.random() < .3 else c for c in good)])
+            if acc is not None:
+                hs['sec-websocket-accept'] = acc
+            pr = rng.choice([None, None, 'chat', 'Chat, superchat', '', 'pr\ufffdto'])
+            if pr is not None:
+                hs['sec-websocket-protocol'] = pr
+            items = list(hs.items())
+            rng.shuffle(items)
+            return dict(items)
+        for _ in range(150 * k):
+            st = rng.choice([101, 101, 101, 101, 100, 102, 200, 404, 0, -101, 1010, None, rng.randrange(-5, 600)])
+            ch = rng.choice([good, good, good.lower(), good.swapcase(), 'AAAA'])
+            out.append((st, reply(rng), ch))
+        out.append((101, {'upgrade': 'websocket', 'sec-websocket-accept': good}, good))
+        out.append((101, {'Upgrade': 'websocket', 'sec-websocket-accept': good}, good))
+        return out
+    if name == 'deflateGetWbits':
+        out = []
+        for v in WBITS_VALUES:
+            for key in ('server_max_window_bits', 'client_max_window_bits'):
+                for opts in ({key: v}, {'other': '9', key: v}, {key: v, 'client_no_context_takeover': ''}):
+                    out.append((opts, key, Fn({v: py_int(v)})))
+        for key in ('server_max_window_bits', 'k', ''):
+            for opts in ({}, {'other': '9'}, {key + 'x': '9'}, {key.upper(): '9'}):
+                v = opts.get(key, '15')
+                out.append((opts, key, Fn({v: py_int(v)})))
+        return out
+    if name == 'deflateFromOptions':
+        out = []
+        names = ['server_max_window_bits', 'client_max_window_bits', 'server_no_context_takeover', 'client_no_context_takeover',
+                 'server_max_window_bit', 'CLIENT_MAX_WINDOW_BITS', 'x']
+        for _ in range(150 * k):
+            opts = {}
+            for n in rng.sample(names, rng.randrange(0, len(names) + 1)):
+                opts[n] = rng.choice(WBITS_VALUES) if 'bits' in n.lower() or rng.random() < .3 else ''
+            tbl = Fn({v: py_int(v) for v in set([opts.get('server_max_window_bits', '15'), opts.get('client_max_window_bits', '15')])})
+            out.append((opts, tbl))
+        for a in ('8', '9', '15'):
+            for b in ('8', '10', '15'):
+                if a != b:
+                    out.append(({'server_max_window_bits': a, 'client_max_window_bits': b}, Fn({a: int(a), b: int(b)})))
+        out.append(({'server_no_context_takeover': ''}, Fn({'15': 15})))
+        out.append(({'client_no_context_takeover': ''}, Fn({'15': 15})))
+        return out
+    if name == 'messageBuildInflate':
+        return [(r, d) for r in (0, 1) for d in B]
+    if name == 'messageBuildKind':
+        return [(o,) for o in range(0, 20)]
+    if name == 'closeFromPayload':
+        out = []
+        tails = [b'', b'a', b'bye', '\u00e9t\u00e9'.encode(), '\u20ac'.encode(), '\U0001f600'.encode(), b'\xff', b'\xc3', b'\xe2\x82',
+                 b'\xed\xa0\x80', b'\xc0\xaf', b'ok\xf0\x9f', b'\xf4\x90\x80\x80'] + [blob(rng, rng.randrange(1, 6)) for _ in range(30 * k)]
+        for p in [b'', b'\x03', b'\xff'] + [bytes([c >> 8, c & 255]) + t for c in (0, 1000, 1005, 4999, 65535) for t in tails]:
+            out.append((p,) + utf8_tables(p))
+        return out
+    if name == 'readUntilCheckLength':
+        return [(m, n) for m in (None, 0, 1, 10, 16384) for n in (0, 1, 9, 10, 11, 16383, 16384, 16385, 1 << 20)]
+    if name == 'feedReadUntil':
+        out = []
+        for m in (None, 0, 3, 4, 5, 10, 50, 16384):
+            edge = [0, 1, 2, 3, 4, 5, 6, 9, 10, 11, 12, 49, 50, 51] + ([m - 5, m - 4, m - 3, m - 1, m, m + 1, m + 4] if m and m > 60 else [])
+            for sl in (1, 2, 4):
+                for n in edge:
+                    if n >= 1:
+                        out.append((m, -1, sl, n))
+                    for i in edge:
+                        if i + sl <= n:
+                            out.append((m, i, sl, n))
+                            if i + sl < n:
+                                out.append((m, i, sl, i + sl))
+        return out
     raise KeyError(name)
+
+
+WBITS_VALUES = ['7', '8', '9', '10', '14', '15', '16', '0', '-8', '+9', ' 12 ', '012', '1_0', '1__0', '', ' ', 'abc', '9.0', '0x9', '15\n',
+                '\ufffd', '99999999999999999999']
+
+
+def rand_headers(rng):
+    names = ['upgrade', 'connection', 'sec-websocket-accept', 'sec-websocket-protocol', 'server', 'x-a', 'Upgrade', 'UPGRADE', '']
+    hs = {}
+    for n in rng.sample(names, rng.randrange(0, 6)):
+        hs[n] = rng.choice(['websocket', 'WebSocket', 'Upgrade', '', 'a, b', 'v\ufffd', 'x'])
+    return hs
+
+
+def variants(name, a):
+    """keyword arguments of the extra observations of one case (the same generated line each time)"""
+    out = [{}]
+    if name in NONE_FOR_ZERO and a[0] == 0:                  # the parameter read as 0 may also be None
+        out.append(dict(none_for_zero=True))
+    if name == 'wsOnDisconnect':
+        out.append(dict(explicit=True))                      # on_disconnect(state) instead of on_disconnect()
+    if name == 'responseGetOpt' and a[2] is None:
+        out.append(dict(omit=True))                          # get(name) instead of get(name, None)
+    if name == 'feedReadUntil':
+        limit = a[3] if a[0] is None else min(a[3], a[0] + 1)
+        top = min(limit, a[1] + 1 if a[1] >= 0 else limit)   # the first part must not contain the separator
+        for first in sorted({1, top // 2, top - 1}):
+            if 0 < first < top:
+                out.append(dict(first=first))
+    return out
 
 
 def observe(fn, a, **kw):
@@ -504,9 +959,8 @@ def run(res, pid, tier, seed, model_ok=True):
         fn = globals()['py_' + name]
         for a in cases_for(name, rng, tier == 'quick'):
             line = ' '.join(['gen', name] + [arg(x) for x in a])
-            lines.append(line); meta.append((name, observe(fn, a)))
-            if name in NONE_FOR_ZERO and a[0] == 0:          # the parameter read as 0 may also be None
-                lines.append(line); meta.append((name, observe(fn, a, none_for_zero=True)))
+            for kw in variants(name, a):
+                lines.append(line); meta.append((name, observe(fn, a, **kw)))
     outs = runner.model_run(lines)
     bad = 0
     for line, (name, py), lean in zip(lines, meta, outs):
@@ -584,35 +1038,89 @@ def bytes_(bs, n):
     if len(p) > n:
         return p
     return b''
+
+def strs(s, t):
+    u = s.lower()
+    if s != t and u == t.lower():
+        return (u, s == 'Ab', True)
+    return (t, s == 'Ab', False)
+
+def dicts(d, k):
+    x = d.get(k)
+    if x is None:
+        return (k in d, 'a' in d, d.get(k, 'dflt'), '')
+    return (k in d, 'a' in d, d.get(k, 'dflt'), x.lower())
+
+def optnum(o, a):
+    return (o == a, o != 3, o in small, bool(o))
+
+def slices(bs):
+    return (bs[:2], bs[2:], bs[:0], len(bs[1:]))
+
+def trying(s, a):
+    try:
+        x = parse(s)
+    except ValueError:
+        raise errors.Three('bad {} {}', s, a)
+    if x > a:
+        raise errors.Three('big')
+    return x + 1
+
+def unpacking(bs):
+    code = None
+    if len(bs) == 2:
+        (code,) = cls._unpack(bs)
+    return (code is None, bs)
 '''
 
 def constructs_selftest():
     import ast, itertools, math, os, subprocess
     import py2lean as P
     tree = ast.parse(CONSTRUCTS)
-    N, O, B = P.NAT, P.OPT(P.NAT), P.BYTES
+    N, O, B, S, D = P.NAT, P.OPT(P.NAT), P.BYTES, P.STR, P.DICT
+    F = P.FN([S], P.OPT(P.INT))
     sig = {'arith': [('a', N), ('b', N), ('c', N)], 'compare': [('a', N), ('b', N), ('c', N)],
            'truthy': [('a', N), ('o', O), ('bs', B)], 'option': [('o', O), ('a', N)], 'option2': [('o', O), ('a', N)],
-           'option3': [('o', O), ('a', N)], 'ceil': [('a', N), ('b', N)], 'raising': [('a', N)], 'bytes_': [('bs', B), ('n', N)]}
-    dom = {N: [0, 1, 2, 3, 7, 11, 255], O: [None, 0, 1, 5, 300], B: [b'', b'\x00', b'xyz']}
+           'option3': [('o', O), ('a', N)], 'ceil': [('a', N), ('b', N)], 'raising': [('a', N)], 'bytes_': [('bs', B), ('n', N)],
+           'strs': [('s', S), ('t', S)], 'dicts': [('d', D), ('k', S)], 'optnum': [('o', O), ('a', N)], 'slices': [('bs', B)],
+           'trying': [('s', S), ('a', N), ('parse', F)], 'unpacking': [('bs', B)]}
+    extra = {'optnum': dict(tables={'small': 'Lomond.Gen.reservedOpcodes'}),
+             'trying': dict(externs={'parse(s)': ('parse', ['s'], 'ValueError')}),
+             'unpacking': dict(unstructs={'cls._unpack': [2]}, locals={'code': O})}
+    dom = {N: [0, 1, 2, 3, 7, 11, 255], O: [None, 0, 1, 5, 300], B: [b'', b'\x00', b'xyz', b'\x01\x02'],
+           S: ['', 'Ab', 'ab', 'AB', 'a', '12', '-3', '\ufffdZ'], D: [{}, {'a': 'X'}, {'Ab': 'Q\ufffd', 'a': ''}], F: [py_int]}
+    def lean_str_term(v):
+        return '[%s]' % ', '.join(str(ord(c)) for c in v)
+    def lean_term(v, t):
+        if t == F:      # int() on the strings of the domain, as a finite table
+            return '(fun s => %s none)' % ''.join('if s = %s then %s else ' % (
+                lean_str_term(x), 'none' if py_int(x) is None else '(some (%d : Int))' % py_int(x)) for x in dom[S])
+        if t == S:
+            return lean_str_term(v)
+        if t == D:
+            return '[%s]' % ', '.join('(%s, %s)' % (lean_str_term(k), lean_str_term(x)) for k, x in v.items())
+        return 'none' if v is None else '(some %d)' % v if t == O else '[%s]' % ', '.join(map(str, v)) if t == B else str(v)
     defs, text, evals, expected = {}, [], [], []
     class Three(Exception):
-        pass
-    ns = dict(math=math, log=types.SimpleNamespace(debug=lambda *a: None), errors=types.SimpleNamespace(Three=Three))
+        def __init__(self, msg, *a):
+            Exception.__init__(self, msg.format(*a))
+    import struct
+    from lomond.opcode import reserved_opcodes
+    ns = dict(math=math, log=types.SimpleNamespace(debug=lambda *a: None), errors=types.SimpleNamespace(Three=Three),
+              small=reserved_opcodes, cls=types.SimpleNamespace(_unpack=struct.Struct('!H').unpack), parse=int)
     exec(CONSTRUCTS, ns)
     for fn in tree.body:
-        s = P.Site(fn.name, 'selftest', sig[fn.name], P.body_of(fn))
+        s = P.Site(fn.name, 'selftest', sig[fn.name], P.body_of(fn), **extra.get(fn.name, {}))
         lean, d = P.Translator(s, defs).translate()
         defs[fn.name] = d
         text.append(lean)
         for a in itertools.product(*[dom[t] for _, t in sig[fn.name]]):
-            terms = []
-            for v, (_, t) in zip(a, sig[fn.name]):
-                terms.append('none' if v is None else '(some %d)' % v if t == O else '[%s]' % ', '.join(map(str, v)) if t == B else str(v))
+            terms = [lean_term(v, t) for v, (_, t) in zip(a, sig[fn.name])]
             evals.append('#eval IO.println (Py.render (%s %s))' % (fn.name, ' '.join(terms)))
-            r = attempt(lambda: ns[fn.name](*a)) if d.raises else show(ns[fn.name](*a))
+            pa = [v for v, (_, t) in zip(a, sig[fn.name]) if t != F]     # external functions are globals on the Python side
+            r = attempt(lambda: ns[fn.name](*pa)) if d.raises else show(ns[fn.name](*pa))
             expected.append((fn.name, a, r))
-    src = 'import Lomond.Model.PyOps\nopen Lomond\nnamespace SelfTest\n' + '\n'.join(text) + '\n' + '\n'.join(evals) + '\nend SelfTest\n'
+    src = 'import Lomond.Model.PyOps\nimport Lomond.Generated.Tables\nopen Lomond\nnamespace SelfTest\n' + '\n'.join(text) + '\n' + '\n'.join(evals) + '\nend SelfTest\n'
     d = os.path.join(runner.VERIF, '.scratch')
     os.makedirs(d, exist_ok=True)
     path = os.path.join(d, 'py2lean_selftest.lean')
